@@ -268,7 +268,7 @@ class Outbound:
         # send our queued messages
         self.resumeProducing()
 
-    def disconnecting(self):
+    def disconnecting(self, abort=False):
         # the Manager is about to drop the connection: stop being its
         # producer, otherwise loseConnection() never completes while we are
         # paused (unregistering twice is harmless). The transport no longer
@@ -277,6 +277,11 @@ class Outbound:
         if self._connection is not None:
             self._connection.transport.unregisterProducer()
             self.pauseProducing()
+            if abort:
+                # the peer may never read what the transport still holds,
+                # and loseConnection() would wait for that: discard it
+                # (everything unacked is sent again on the next connection)
+                self._connection.abort()
 
     def stop_using_connection(self):
         self._connection.transport.unregisterProducer()
